@@ -88,9 +88,14 @@ func (ni *Native) getMatcher(tablename, expression string, kind ExpressionType) 
 }
 
 // hashExpressionKey returns the expression without surrounding whitespace
-// and with every run of whitespace collapsed to a single space
+// and with every run of whitespace collapsed to a single space;
+// whitespace is what the expression language calls whitespace, nothing else
 func hashExpressionKey(s string) string {
-	return strings.Join(strings.Fields(s), " ")
+	return strings.Join(strings.FieldsFunc(s, isExpressionSpace), " ")
+}
+
+func isExpressionSpace(r rune) bool {
+	return r == ' ' || r == '\t' || r == '\n' || r == '\r'
 }
 
 // HasMatcher tells whether a matcher is registered for the table, kind and expression
